@@ -12,6 +12,7 @@ import (
 	"bytes"
 	"context"
 	"encoding/json"
+	"errors"
 	"fmt"
 	"io"
 	"math/rand/v2"
@@ -323,10 +324,27 @@ func (cs *caseState) open(dir string, max int64, storage, impl string) (disk.Cac
 	d["open_max_size"], d["open_storage"] = max, storage
 	b, _ := json.Marshal(d)
 	_ = os.WriteFile(jp, b, 0o644)
-	c, _, err := lib.NewCache(lib.ServerOpts{Dir: dir, MaxSize: max, Storage: storage, ZstdImpl: impl})
-	_ = os.Remove(jp)
-	return c, err
+	type res struct {
+		c   disk.Cache
+		err error
+	}
+	ch := make(chan res, 1)
+	go func() {
+		c, _, err := lib.NewCache(lib.ServerOpts{Dir: dir, MaxSize: max, Storage: storage, ZstdImpl: impl})
+		ch <- res{c, err}
+	}()
+	select {
+	case x := <-ch:
+		_ = os.Remove(jp)
+		return x.c, x.err
+	case <-time.After(5 * time.Minute):
+		// a watchdog, not a verdict
+		cs.r.Inconclusive(fmt.Sprintf("case %d: disk.New did not return within 5 minutes (witness: %s)", cs.idx, jp))
+		return nil, errHung
+	}
 }
+
+var errHung = errors.New("disk.New did not return (watchdog)")
 
 func runCase(r *lib.Run, pool *lib.DirPool, idx, worker int) {
 	rng := r.Rng(fmt.Sprintf("case-%d", idx))
@@ -415,6 +433,9 @@ func runCase(r *lib.Run, pool *lib.DirPool, idx, worker int) {
 	tm()
 	loadEvents := cs.takeEvents()
 	r.CountN("events.lru.removed.during-load", int64(len(loadEvents)))
+	if err == errHung {
+		return
+	}
 	if err != nil {
 		r.Eval()
 		r.Count("startup.error")
@@ -462,6 +483,9 @@ func runCase(r *lib.Run, pool *lib.DirPool, idx, worker int) {
 			cs.max, cs.maxClass, cs.storage = max2, class2+"(second restart)", storage2
 			c2, err := cs.open(dir, max2, storage2, cs.impl)
 			_ = cs.takeEvents()
+			if err == errHung {
+				return
+			}
 			if err != nil {
 				r.Eval()
 				r.Count("restart2.error")
